@@ -5,6 +5,7 @@
 package c20
 
 import (
+	"encoding/hex"
 	"encoding/json"
 	"errors"
 	"fmt"
@@ -24,8 +25,38 @@ type Input struct {
 	Prefix  string        `json:"prefix"`
 	Chunks  []string      `json:"chunks"`
 	Budget  int           `json:"budget"`
+	Hex     bool          `json:"hex,omitempty"` // prefix and chunks are spelled in hexadecimal
 	Nested  *NestedInput  `json:"nested,omitempty"`
 	Writers *WritersInput `json:"live_writers,omitempty"`
+}
+
+// decoded undoes the hexadecimal spelling used for texts that are not valid UTF-8 (JSON would not
+// carry them unchanged into a replay file).
+func (in Input) decoded() Input {
+	if !in.Hex {
+		return in
+	}
+	out := in
+	out.Hex = false
+	b, _ := hex.DecodeString(in.Prefix)
+	out.Prefix = string(b)
+	out.Chunks = nil
+	for _, c := range in.Chunks {
+		b, _ := hex.DecodeString(c)
+		out.Chunks = append(out.Chunks, string(b))
+	}
+	return out
+}
+
+func mkInput(asHex bool, prefix string, chunks []string, budget int) Input {
+	if !asHex {
+		return Input{Prefix: prefix, Chunks: chunks, Budget: budget}
+	}
+	in := Input{Prefix: hex.EncodeToString([]byte(prefix)), Budget: budget, Hex: true}
+	for _, c := range chunks {
+		in.Chunks = append(in.Chunks, hex.EncodeToString([]byte(c)))
+	}
+	return in
 }
 
 type lim struct {
@@ -79,6 +110,7 @@ type verdict struct {
 
 // check runs one execution against the real writer. ok=true when everything agreed.
 func check(in Input) (ok bool, v verdict) {
+	in = in.decoded()
 	text := strings.Join(in.Chunks, "")
 	want, idx := ref(in.Prefix, text)
 	u := &lim{left: in.Budget, nofail: in.Budget < 0}
@@ -207,10 +239,30 @@ func shards(tier string) []string {
 		}
 	}
 	out = append(out, largeShards()...)
+	for pi := range uPrefixes {
+		for k := range uAlpha {
+			out = append(out, fmt.Sprintf("u/%d/%d", pi, k))
+		}
+	}
 	return append(out, "writers")
 }
 
-func texts(n int, lead string, f func(string)) {
+// texts that are not ASCII: the two bytes of a two-byte character, a byte that is never valid in
+// UTF-8, a line break and a letter, so that chunk boundaries and stop points fall inside characters;
+// prefixes that are or end in a partial character.
+var uAlpha = []byte{0xc3, 0xa9, '\n', 'a', 0xff}
+var uPrefixes = []string{">", "é", "\xc3"}
+
+func uMaxLen(tier string) int {
+	if tier == "thorough" {
+		return 7
+	}
+	return 6
+}
+
+func texts(n int, lead string, f func(string)) { textsOver(alpha, n, lead, f) }
+
+func textsOver(alpha []byte, n int, lead string, f func(string)) {
 	var rec func(s []byte)
 	rec = func(s []byte) {
 		if len(s) == n {
@@ -227,7 +279,7 @@ func texts(n int, lead string, f func(string)) {
 func run(c *core.Ctx) {
 	var pi, n, k int
 	short := false
-	c.Res.Bound = fmt.Sprintf("text length <= %d over {a,b,\\n}; %d prefixes; all compositions; every stop point; <=1 empty write; nested writers: %d x %d prefixes, every sequence of <= %d writes of %d chunks to the inner or the outer writer, every stop point; 1..40 writers alive at once with distinct or equal prefixes of 1..33 bytes, written to in turn; every length 1..700 in one Write (at a line start, with and without a final line break, after a complete line; 3 prefixes); large writes: texts of 4096, 4097, 8192, 8193 (thorough also 4095, 8191, 12289) bytes (around the block sizes 4096 and 8192) with line breaks never, always, every 7th and every 4096th byte, in one call and split at byte 4096, 2 prefixes, every stop point (every third beyond 9000 output bytes, all next to a multiple of 4096)", maxLen(c.Tier), len(prefixes), len(nestPrefixes), len(nestPrefixes), nestedDepth(c.Tier), len(nestChunks))
+	c.Res.Bound = fmt.Sprintf("text length <= %d over {a,b,\\n}; %d prefixes; all compositions; every stop point; <=1 empty write; texts of <= "+fmt.Sprint(uMaxLen(c.Tier))+" bytes over {C3, A9, FF, a, \\n} (chunk boundaries and stop points inside a two-byte character, invalid bytes) with 3 prefixes, one of them a partial character; nested writers: %d x %d prefixes, every sequence of <= %d writes of %d chunks to the inner or the outer writer, every stop point; 1..40 writers alive at once with distinct or equal prefixes of 1..33 bytes, written to in turn; every length 1..700 in one Write (at a line start, with and without a final line break, after a complete line; 3 prefixes); large writes: texts of 4096, 4097, 8192, 8193 (thorough also 4095, 8191, 12289) bytes (around the block sizes 4096 and 8192) with line breaks never, always, every 7th and every 4096th byte, in one call and split at byte 4096, 2 prefixes, every stop point (every third beyond 9000 output bytes, all next to a multiple of 4096)", maxLen(c.Tier), len(prefixes), len(nestPrefixes), len(nestPrefixes), nestedDepth(c.Tier), len(nestChunks))
 	var oi, ii int
 	if c.Shard == "writers" {
 		runWriters(c)
@@ -245,29 +297,36 @@ func run(c *core.Ctx) {
 		runNested(c, nestPrefixes[oi], nestPrefixes[ii])
 		return
 	}
-	if _, err := fmt.Sscanf(c.Shard, "p%d/n%d/%d", &pi, &n, &k); err != nil {
-		if _, err := fmt.Sscanf(c.Shard, "p%d/short", &pi); err != nil {
-			panic("bad shard " + c.Shard)
+	var prefix string
+	bytesShard := false
+	if _, err := fmt.Sscanf(c.Shard, "u/%d/%d", &pi, &k); err == nil {
+		bytesShard = true
+		prefix = uPrefixes[pi]
+	} else {
+		if _, err := fmt.Sscanf(c.Shard, "p%d/n%d/%d", &pi, &n, &k); err != nil {
+			if _, err := fmt.Sscanf(c.Shard, "p%d/short", &pi); err != nil {
+				panic("bad shard " + c.Shard)
+			}
+			short = true
 		}
-		short = true
+		prefix = prefixes[pi]
 	}
-	prefix := prefixes[pi]
 	one := func(text string) {
 		if c.Expired() {
 			return
 		}
 		caseNo, run := c.Begin()
-		if c.Skip(caseNo, run, Input{Prefix: prefix, Chunks: []string{text}, Budget: -2}) {
+		if c.Skip(caseNo, run, mkInput(bytesShard, prefix, []string{text}, -2)) {
 			return
 		}
 		if ok, v := checkOneShot(prefix, text); !ok {
-			c.Fail(caseNo, v.classes, v.fingerprint, Input{Prefix: prefix, Chunks: []string{text}, Budget: -2}, v.expected, v.observed)
+			c.Fail(caseNo, v.classes, v.fingerprint, mkInput(bytesShard, prefix, []string{text}, -2), v.expected, v.observed)
 		}
 		want, _ := ref(prefix, text)
 		n := len(text)
 		if n == 0 {
 			// a single empty write
-			in := Input{Prefix: prefix, Chunks: []string{""}, Budget: -1}
+			in := mkInput(bytesShard, prefix, []string{""}, -1)
 			ok, v := check(in)
 			c.Exec()
 			c.Validate()
@@ -301,7 +360,7 @@ func run(c *core.Ctx) {
 					if budget == len(want) {
 						continue // same as no fault
 					}
-					in := Input{Prefix: prefix, Chunks: ch, Budget: budget}
+					in := mkInput(bytesShard, prefix, ch, budget)
 					ok, v := check(in)
 					c.Exec()
 					c.Validate()
@@ -328,7 +387,11 @@ func run(c *core.Ctx) {
 			c.Sample(string(b))
 		}
 	}
-	if short {
+	if bytesShard {
+		for l := 1; l <= uMaxLen(c.Tier); l++ {
+			textsOver(uAlpha, l, string(uAlpha[k:k+1]), one)
+		}
+	} else if short {
 		for l := 0; l <= 4; l++ {
 			texts(l, "", one)
 		}
@@ -351,6 +414,7 @@ func replay(tier string, raw json.RawMessage) (bool, string, string) {
 		ok, v := checkNested(*in.Nested)
 		return !ok, v.fingerprint, fmt.Sprintf("expected %s observed %s", v.expected, v.observed)
 	}
+	in = in.decoded()
 	if in.Budget == -2 {
 		ok, v := checkOneShot(in.Prefix, strings.Join(in.Chunks, ""))
 		return !ok, v.fingerprint, fmt.Sprintf("expected %s observed %s", v.expected, v.observed)
